@@ -32,7 +32,7 @@ func init() {
 		Run: c10Run,
 		Floors: func(m *Merged, tier string) []string {
 			var u []string
-			for _, c := range []string{"custom_all_const_args_reached", "custom_all_const_args_unreached", "failing_const_reached", "failing_const_unreached", "stateless_folded_at_compile_time", "undeclared_runtime_calls", "vars_legitimately_folded_away", "zero_arg_ops", "derived_config_compilations", "duplicate_operand_evaluations"} {
+			for _, c := range []string{"custom_all_const_args_reached", "custom_all_const_args_unreached", "failing_const_reached", "failing_const_unreached", "stateless_folded_at_compile_time", "undeclared_runtime_calls", "vars_legitimately_folded_away", "zero_arg_ops", "derived_config_compilations", "duplicate_operand_evaluations", "marker_constant_probes"} {
 				if m.C(c) < 100 {
 					u = append(u, fmt.Sprintf("%s = %d (<100)", c, m.C(c)))
 				}
@@ -294,6 +294,10 @@ func c10Run(w *W, idx int) {
 	}
 	if idx%50 == 48 {
 		c10Duplicates(w, r)
+		return
+	}
+	if idx%50 == 47 {
+		c10MarkerConstants(w, r)
 		return
 	}
 	var tree *Node
@@ -609,6 +613,45 @@ func c10Duplicates(w *W, r *rand.Rand) {
 				w.Fail("undeclared-operator-call-dropped", "%s: result %s, the undeclared operator ci ran %d time(s) in one evaluation; it occurs %d times and every operand is evaluated under this binding\nsource: %s\nconfig: %s\ndump: %s", []string{"Eval", "TryEval"}[kind], out, calls, occurrences, src, v.Cfg, oneLine(v.Dump))
 				return
 			}
+		}
+	}
+}
+
+// c10MarkerConstants: a constant may hold any value, also the DNE marker (ConstantMap entry, result of a stateless
+// operator). Under Eval the marker is a value like any other non-boolean, non-integer value: a constant sub-expression
+// over it fails when it is reached, with constant folding exactly as without.
+func c10MarkerConstants(w *W, r *rand.Rand) {
+	srcs := []string{"(add 1 KDNE)", "(lt KDNE 3)", "(not KDNE)", "(if (eq KDNE 1) 1 2)", "(and true (not KDNE))", "(+ i0 (mul 2 KDNE))",
+		"(if b0 (add 1 KDNE) 5)", "(eq (sdne) 1)", "(add 1 (sdne))", "(or b0 (lt (sdne) 3))", "(in KDNE (1 2))", "(between 1 KDNE 3)"}
+	src := srcs[r.Intn(len(srcs))]
+	vals := map[string]interface{}{"i0": int64(r.Intn(5)), "b0": r.Intn(2) == 0}
+	var ref *Outcome
+	for _, o := range allOptSets() {
+		cc := buildConfig(CaseCfg{Opts: o, VarNames: []string{"b0", "i0"}, Custom: stdCustom, Stateless: stdStateless}, nil)
+		cc.ConstantMap["KDNE"] = eval.DNE
+		cc.OperatorMap["sdne"] = func(*eval.Ctx, []eval.Value) (eval.Value, error) { return eval.DNE, nil }
+		cc.StatelessOperators = append(cc.StatelessOperators, "sdne")
+		e, co := compileGuard(cc, src)
+		w.Evals++
+		w.Inc("marker_constant_probes")
+		if co.Panic != nil || co.Err != nil {
+			w.Fail("compile-fails-on-constant-subexpression", "Compile(%s) gave %s under %s (KDNE is a ConstantMap entry holding the DNE marker)", src, co, o)
+			return
+		}
+		out := guard(func() (eval.Value, error) { return e.Eval(eval.NewCtxFromVars(cc, vals)) })
+		w.Evals++
+		if out.Panic != nil {
+			w.Fail("panic/"+normPanic(out.Panic)+"@"+panicSite(out.Stack), "Eval(%s) panicked under %s: %v", src, o, out.Panic)
+			return
+		}
+		if ref == nil {
+			oc := out
+			ref = &oc // the unoptimized program (allOptSets starts with none)
+			continue
+		}
+		if (ref.Err == nil) != (out.Err == nil) || (ref.Err == nil && !valEq(ref.V, out.V)) {
+			w.Fail("folding-changes-outcome-of-marker-constant", "%s with KDNE = the DNE marker (a ConstantMap entry) and sdne = a stateless operator returning it: unoptimized Eval gives %s, under %s it gives %s (binding %v)", src, *ref, o, out, vals)
+			return
 		}
 	}
 }
